@@ -8,6 +8,7 @@ from harness.extract import request_core as x_core
 from harness.lib import scen
 from harness.lib.core import VERIF, Ctx, Rng, lean_lock, run_driver
 from harness.rigs import request as rig
+from harness.rigs import request_contract as rcon
 
 MANIFEST = {
     "text": "Lean 4 proof, for every request tree, validator valuation, handler semantics, state and request, that the model of "
@@ -206,6 +207,8 @@ def judge(ctx: Ctx, records: List[dict]):
 def replay(rec: dict) -> bool:
     """Re-run one recorded request on a fresh build of its scenario (round 0 state) with stubbed and live handlers."""
     rp = rec["replay"]
+    if "ops" in rp and ("zoo_seed" in rp or "gen_family" in rp or "scenario" in rp) and "req" in rp and "state" in rp:
+        return rcon.replay(rp, registry())   # a contract-search replay
     cfg = scen.load_cfg(scen.shipped()[rp["scenario"]])
     game = scen.make_game(cfg)
     sim = game.simulation
@@ -265,6 +268,14 @@ def run(ctx: Ctx):
                        "uninstalled) of shipped scenarios; non-trivial = not simply reaching its handler; distinct by (scenario, round, request)")
     corpus(ctx)
     judge(ctx, explore(ctx))
+    # contract search: every route-owning class driven into every gate-falsifying state, judged against the hand-written contract
+    ctx.cov["rule_contract"] = ("R-contract: one instance of every node / NIC / service / application class, a folder and a file per node "
+                                "class, of a zoo game (every registered node type, every registered software class), of the shipped "
+                                "scenarios and of generated families, driven into every state that falsifies a component gate; every route "
+                                "below the component raw (stubbed) + every action naming it; suspects and a sample of refused requests "
+                                "re-sent with the real handlers and compared by deep state fingerprint")
+    rcon.search(ctx, registry(), scenarios(ctx), zoo_seeds=[7] if not ctx.thorough else [7, 8, 9],
+                gen_families=[] if not ctx.thorough else [("lan", 3), ("routed", 4), ("dmz", 5)])
     # static part: schematic request tree (E4) x action templates (E5): C05_action_templates_resolve & co (Props/C05Schema.lean)
     from harness.props import c05x
     c05x.extra(ctx)
